@@ -514,7 +514,7 @@ def main(chk: core.Check) -> int:
     c06_gen.regenerate(chk)  # T-journal: Generated/JournalHandlers.lean from journal/_storage.py
     c06_front.regenerate(chk)  # T-journalfront: Generated/JournalFront.lean (the public methods of JournalStorage)
     if not getattr(chk, "no_prove", False):
-        chk.prove(["OptunaVerif.Props.C06", c06_gen.MODULE, c06_front.MODULE, "OptunaVerif.Props.C06Redis"])
+        chk.prove(["OptunaVerif.Props.C06", c06_gen.MODULE, c06_front.MODULE, "OptunaVerif.Props.C06Run", "OptunaVerif.Props.C06Redis"])
         c06_gen.explain_proof_failure(chk)
         c06_front.explain_proof_failure(chk)
     check_opcodes(chk)
